@@ -39,9 +39,24 @@ func c14Case(c *Ctx) *Result {
 		return p
 	}
 	patC, patS := mkPat(), mkPat()
+	piggy := c.Idx%4 == 3
+	if piggy {
+		// open request carrying a near-maximal first write, with long end
+		// padding allowed, at a small MTU: the padding budget must account
+		// for the piggy-backed payload
+		mtuC = pick(r, 1280, 1281, 1300, 1350, 1366)
+		patC.LowEntropy = &appctlpb.LowEntropyPattern{Mode: appctlpb.LowEntropyMode_LOW_ENTROPY_MODE_OFF.Enum()}
+		patC.Padding.MaxEndPaddingLen = proto.Int32(int32(pick(r, 255, 255, 200)))
+		if r.Intn(2) == 0 {
+			patC.Padding.MaxEndPaddingLen = nil
+		}
+	}
 	// write sizes: piggy-back boundary first write, then 1..3 fragments around the fragment size
 	frag := mtuC - 88
-	firstC := pick(r, 0, 1, 512, 1023, 1024, 1025, r.Intn(1100))
+	firstC := pick(r, 0, 1, 512, 1023, 1024, 1025, r.Intn(1100), 1024-r.Intn(90), 1024-r.Intn(90))
+	if piggy {
+		firstC = 1024 - r.Intn(120)
+	}
 	p := &SessPlan{Idx: 0, CloseBy: r.Intn(2)}
 	p.W[0] = []int{firstC, pick(r, 1, frag-1, frag, frag+1, 2*frag, 2*frag+1, 3*frag-1), 1 + r.Intn(5000), 32768}
 	fragS := mtuS - 88
@@ -51,7 +66,15 @@ func c14Case(c *Ctx) *Result {
 	params := map[string]interface{}{"mtu_c": mtuC, "mtu_s": mtuS, "pat_c": patString(patC), "pat_s": patString(patS), "cw": p.W[0], "sw": p.W[1]}
 	c.Out.Start("C14", fmt.Sprintf("C14-sweep/%d/%d", c.Seed, c.Idx), c.Seed, params)
 	res := &Result{Params: params}
-	x := &XCase{UDP: true, MTUC: mtuC, MTUS: mtuS, PatC: patC, PatS: patS, Plans: []*SessPlan{p}, Multiplex: 1, Seed: c.Seed*13 + int64(c.Idx),
+	// user names decide the padding strategy of control segments: vary them
+	uname := fmt.Sprintf("user%d", r.Intn(1000))
+	preC, preS := 0, 0
+	if r.Intn(4) == 0 {
+		preC, preS = pick(r, 1500, 1400, 1290), pick(r, 1500, 1400, 1290)
+	}
+	params["user"] = uname
+	params["pre_mtu"] = []int{preC, preS}
+	x := &XCase{Users: []UserSpec{{uname, uname + "-secret"}}, PreMTUC: preC, PreMTUS: preS, UDP: true, MTUC: mtuC, MTUS: mtuS, PatC: patC, PatS: patS, Plans: []*SessPlan{p}, Multiplex: 1, Seed: c.Seed*13 + int64(c.Idx),
 		SetupPlan: func(fp *FaultPlan) {
 			// force retransmissions of open, data and acks in both directions
 			fp.Rules = []*Rule{
